@@ -271,13 +271,26 @@ def run_e1(prop, pool, verdict, tier, seed):
     for q, o, model in need_fuzz:
         if q not in done_fuzz:
             n = 3000 if tier == 'quick' else 20000
-            done_fuzz[q] = fuzz_task((q, n, seed))
+            via = REGISTRY[q].fuzz_via
+            if via:
+                # the function has no run-time contract of its own: search through its callers' contracts
+                fz = {'qual': q, 'accepted': 0, 'failures': [], 'tried': 0}
+                for q2 in via:
+                    r2 = fuzz_task((q2, n, seed))
+                    fz['accepted'] += r2.get('accepted', 0)
+                    if r2.get('failures'):
+                        fz['failures'] = r2['failures']
+                        fz['via'] = q2
+                        break
+                done_fuzz[q] = fz
+            else:
+                done_fuzz[q] = fuzz_task((q, n, seed))
         fz = done_fuzz[q]
         oname = o['name'] if o else q.split(':')[1] + '::*'
         if fz.get('failures'):
             f = fz['failures'][0]
             rp = write_replay(prop, oname, {'kind': 'function-contract', 'property': prop, 'obligation': oname,
-                                            'qual': q, 'args': f['args'], 'observed': f['detail'],
+                                            'qual': fz.get('via', q), 'args': f['args'], 'observed': f['detail'],
                                             'solver': None if o is None else {'verdict': o['verdict'], 'why': o.get('why')},
                                             'model': model})
             verdict.violation(rp)
